@@ -57,6 +57,29 @@ def local_dict(f, name) -> Optional[Dict[str, str]]:
     return None
 
 
+def find_ctypes_table(prog: Program):
+    """the parser's native-name -> ctypes mirror table, wherever it is written: a local of get_ctype_cls (pinned tree), a
+    module-level constant, or a class attribute.  -> ({name: 'ctypes.c_x'}, 'file:line') or (None, None)"""
+    m = prog.module(PAR)
+    cands = []
+    for n in ast.walk(m.tree):
+        v = n.value if isinstance(n, (ast.Assign, ast.AnnAssign)) else None
+        if isinstance(v, ast.Dict) and len(v.keys) >= 20 and all(isinstance(k, ast.Constant) and isinstance(k.value, str) for k in v.keys) \
+                and sum(1 for x in v.values if norm(x).startswith("ctypes.c_")) >= 20:
+            cands.append(n)
+    if len(cands) != 1:
+        return None, None
+    d = cands[0].value
+    return {k.value: norm(v_) for k, v_ in zip(d.keys, d.values)}, f"{m.rel}:{cands[0].lineno}"
+
+
+def ctypes_table_entries(prog: Program):
+    t, loc = find_ctypes_table(prog)
+    if t is None:
+        raise AnalysisError("anchor vanished: the parser's native-name -> ctypes table")
+    return [(k, v.split(".")[-1], loc) for k, v in sorted(t.items())]
+
+
 def descriptor_widths(prog: Program) -> Dict[str, Tuple[int, str]]:
     m = prog.module(VAL)
     out = {}
@@ -105,7 +128,7 @@ def run(prog: Program, chk: Check):
             raise AnalysisError(f"parser.supported_types[{k!r}] has unknown struct format {fmt!r}")
         parser_w[k] = (size, FMT[fmt][1], FMT[fmt][0])
     tables: Dict[str, Dict[str, str]] = {}
-    tables["parser.get_ctype_cls.type_map"] = local_dict(prog.func(PAR, "Parser.get_ctype_cls"), "type_map") or {}
+    tables["parser.get_ctype_cls.type_map"] = find_ctypes_table(prog)[0] or {}
     tables["python.type_map"] = artefacts.dict_literal(prog, BACKENDS["python"][0], "type_map")
     tables["python.desctype_map"] = artefacts.dict_literal(prog, BACKENDS["python"][0], "desctype_map")
     tables["c99.type_map"] = artefacts.dict_literal(prog, BACKENDS["c99"][0], "type_map")
@@ -152,12 +175,20 @@ def run(prog: Program, chk: Check):
     F = chk.rule("C04-F", "every struct/message generator walks <def>.fields once, in order, unfiltered, using name / type_name / length", 6,
                  "a filtered, sorted or partially emitted field list gives that language a different layout")
     gens = [("python", "generate_struct"), ("python", "generate_msg_def"), ("c99", "generate_struct"), ("javascript", "generate_obj"), ("matlab", "generate_struct")]
-    funcs = [(b, prog.func(BACKENDS[b][0], f"{BACKENDS[b][1]}.{fn}")) for b, fn in gens] + [("parser", prog.func(PAR, "Parser.get_ctype_cls"))]
+    # the parser's own ctypes mirror is built by get_ctype_cls, or by whatever function it delegates to (the one that creates the
+    # ctypes.Structure subclass from a walk over the fields)
+    mirror = prog.func(PAR, "Parser.get_ctype_cls")
+    if not any(isinstance(n_, (ast.For, ast.ListComp)) for n_ in walk_local(mirror.node)):
+        builders = [f_ for f_ in prog.module(PAR).functions.values() if any(isinstance(c_, ast.Call) and isinstance(c_.func, ast.Name) and c_.func.id == "type" and "ctypes.Structure" in norm(c_) for c_ in calls_in(f_.node))
+                    and any(isinstance(n_, (ast.For, ast.ListComp)) for n_ in walk_local(f_.node))]
+        if builders:
+            mirror = sorted(builders, key=lambda b_: b_.key)[0]  # (the same builder written out in several classes counts once)
+    funcs = [(b, prog.func(BACKENDS[b][0], f"{BACKENDS[b][1]}.{fn}")) for b, fn in gens] + [("parser", mirror)]
     for b, f in funcs:
         from ..util import iterations
         from .. import callgraph as _cgm
 
-        dparam = [p for p in f.params() if p != "self"][0]
+        dparam = ([p for p in f.params() if p != "self"] or ["self"])[0]
         loops = [it_ for it_ in iterations(f.node) if (norm(it_.iter) == f"{dparam}.fields" or norm(it_.iter).startswith(f"enumerate({dparam}.fields"))]
         if len(loops) != 1:
             F.bad(fkey(f, "field-loop"), where(f), f"{f.qual}: expected exactly one walk over {dparam}.fields, found {len(loops)} (sorted / sliced / filtered iteration?)")
@@ -195,6 +226,13 @@ def run(prog: Program, chk: Check):
                             seen_h.add((callee.key, var_))
                             reads |= {n.attr for n in walk_local(callee.node) if isinstance(n, ast.Attribute) and path_of(n.value) == p_}
                             todo_h.append((callee, callee.node, p_))
+        # ... and inside methods invoked on the field itself (`field.ctype()`: polymorphism instead of isinstance chains)
+        for sc_ in scope:
+            for c_ in [x for x in walk_local(sc_) if isinstance(x, ast.Call) and isinstance(x.func, ast.Attribute) and path_of(x.func.value) == fv]:
+                for ci_ in f.module.classes.values():
+                    mth = ci_.methods.get(c_.func.attr)
+                    if mth is not None and ci_.name == "Field":
+                        reads |= {n.attr for n in walk_local(mth.node) if isinstance(n, ast.Attribute) and path_of(n.value) == "self"}
         need = {"name", "type_name", "length"} if b != "parser" else {"type_obj", "length"}
         F.decide(not skips and need <= reads, fkey(f, "field-loop"), where(f, lp), f"walks {dparam}.fields in order using {sorted(need)}",
                  f"{f.qual}: field loop " + ("skips fields (continue/break); " if skips else "") + (f"does not read {sorted(need - reads)}" if need - reads else ""))
@@ -408,3 +446,43 @@ def run(prog: Program, chk: Check):
     okr, why, afn = reserved_name_verdict(prog)
     G.decide(okr, fkey(afn, "reserved-names-all-kinds"), where(afn), why, "a field named like a generated message attribute can reach a message through field-list reuse and breaks only the Python output: " + why)
     chk.units.update({"tables": {k: len(v) for k, v in tables.items()}, "native_names": len(natives)})
+
+    # ---- X which definitions a back end leaves out -------------------------------------------------------------------------------------
+    # The C back end omits pyrtma's own core definitions (C clients take them from RTMA.h).  That test must compare a path
+    # *component*; a substring test on the path text also drops user files such as lab_core_defs.yaml - from the C output only.
+    X = chk.rule("C04-X", "a back end tells core definitions from user definitions by a path component, never by a substring of the path text", 1,
+                 "a user file whose path merely contains the text is silently missing from one language output")
+
+    def path_substring_tests(tree):
+        hits = []
+        for n in ast.walk(tree):
+            if isinstance(n, ast.Compare) and len(n.ops) == 1 and isinstance(n.ops[0], (ast.In, ast.NotIn)):
+                r = n.comparators[0]
+                txt = norm(r)
+                is_text = (isinstance(r, ast.Call) and isinstance(r.func, ast.Attribute) and r.func.attr == "as_posix") or \
+                    (isinstance(r, ast.Call) and isinstance(r.func, ast.Name) and r.func.id == "str") or (isinstance(r, ast.JoinedStr))
+                if is_text and ".src" in txt:
+                    hits.append(n)
+            elif isinstance(n, ast.Call) and isinstance(n.func, ast.Attribute) and n.func.attr in ("find", "count", "__contains__") and ".src" in norm(n.func.value) and \
+                    ("as_posix" in norm(n.func.value) or norm(n.func.value).startswith("str(")):
+                hits.append(n)
+        return hits
+
+    import os as _os4
+    fxp = _os4.path.join(_os4.path.dirname(_os4.path.dirname(_os4.path.dirname(_os4.path.abspath(__file__)))), "fixtures", "c04_path_substring.py")
+    try:
+        nfx = len(path_substring_tests(ast.parse(open(fxp, encoding="utf-8").read())))
+    except OSError:
+        nfx = 0
+    if nfx != 1:
+        raise AnalysisError(f"C04-X detector no longer matches its positive example fixtures/c04_path_substring.py exactly once (found {nfx})")
+    nscan4 = 0
+    for mname, m_ in prog.modules.items():
+        if not mname.startswith("pyrtma.compilers") or mname.endswith("python_v1"):
+            continue
+        nscan4 += 1
+        for h in path_substring_tests(m_.tree):
+            X.bad(f"{mname}|{norm(h)[:50]}", f"{m_.rel}:{h.lineno}", f"{mname.split('.')[-1]}: `{norm(h)[:70]}` is a substring test on a source path: definitions of user files whose path "
+                  "contains the text are left out of this output only")
+    if not X.instances:
+        X.ok("pyrtma.compilers|core-def-test", "", f"{nscan4} back-end module(s) scanned; the positive example in fixtures/c04_path_substring.py matched")
